@@ -789,7 +789,7 @@ func main() {
 				}
 			}
 			return []vlib.Family{
-				family("T0<=2,T1<=1,dev2", programs(2, 1, two, false), vsched.Config{MaxPreempt: 1, MaxFree: 1, MaxTotal: 2, MaxDev: 0, MaxSteps: 3000}),
+				family("T0<=2,T1<=1,dev1", programs(2, 1, two, false), vsched.Config{MaxPreempt: 1, MaxFree: 1, MaxTotal: 1, MaxDev: 0, MaxSteps: 3000}),
 				family("T0<=3,dev1", programs(3, 0, two, false), vsched.Config{MaxPreempt: 1, MaxFree: 1, MaxTotal: 1, MaxDev: 0, MaxSteps: 3000}),
 			}
 		},
